@@ -654,6 +654,23 @@ struct XTypesDeserializer<'a, E, V> {
     _encoding_version: V,
 }
 
+/// A value of this type may occupy no bytes at all on the wire (a structure all of whose
+/// members are non-optional and may themselves be empty, an array of such elements or of
+/// length 0): the number of elements of a collection of them is not bounded by the bytes left.
+fn can_be_empty(t: &DynamicType) -> bool {
+    match t.get_kind() {
+        TypeKind::STRUCTURE => t
+            .member_list
+            .iter()
+            .all(|m| !m.descriptor.is_optional && can_be_empty(&m.descriptor.r#type)),
+        TypeKind::ARRAY => {
+            t.descriptor.bound.first() == Some(&0)
+                || t.descriptor.element_type.as_ref().is_some_and(can_be_empty)
+        }
+        _ => false,
+    }
+}
+
 fn is_element_type_kind_primitive(member: &DynamicTypeMember) -> XTypesResult<bool> {
     Ok(matches!(
         member
@@ -732,8 +749,7 @@ impl<'a, E: EndiannessRead, V: EncodingVersion> XTypesDeserializer<'a, E, V> {
         // the announced length sizes the allocations and bounds the loops below: a sequence
         // cannot have more elements than there are bytes left in the buffer, unless its
         // elements occupy no bytes at all (structures without members)
-        let is_empty_element = matches!(element_type.get_kind(), TypeKind::STRUCTURE)
-            && element_type.get_member_count() == 0;
+        let is_empty_element = can_be_empty(&element_type);
         if !is_empty_element
             && length > self.reader.buffer.len().saturating_sub(self.reader.pos)
         {
